@@ -25,6 +25,7 @@ type c15Params struct {
 	NilWrite     bool `json:"nil_write"`
 	MissingIndex bool `json:"missing_index"`
 	Prefix       int  `json:"prefix_steps"` // the first Prefix steps populate a writable instance
+	WrongKey     bool `json:"wrong_key"`    // the read-only instance holds a different private key / signature key
 }
 
 var c15Mutators = map[string]bool{"create": true, "mkdir": true, "mkdirall": true, "remove": true, "removeall": true, "rename": true,
@@ -74,7 +75,7 @@ func c15Run(f failer, cfg world.Cfg, p c15Params, next func(i int, mr *hist.MRun
 		if !(p.MissingIndex && ro) {
 			_ = world.CopyFile(db, base.W.DB)
 		}
-		o := world.Opts{Dir: d, Drive: drv, DB: db, ReadOnly: ro, NilWrite: ro && p.NilWrite}
+		o := world.Opts{Dir: d, Drive: drv, DB: db, ReadOnly: ro, NilWrite: ro && p.NilWrite, Stranger: ro && p.WrongKey}
 		r, err := hist.NewRunner(cfg, o)
 		if err != nil {
 			checkObs(f, hangOnly(err), "construct "+name)
@@ -85,6 +86,26 @@ func c15Run(f failer, cfg world.Cfg, p c15Params, next func(i int, mr *hist.MRun
 	tapeBefore, _ := os.ReadFile(base.W.Drive)
 	ro := mk("ro", true)
 	defer ro.Finish()
+	if p.WrongKey && p.MissingIndex && (cfg.Encryption != "" || cfg.Signature != "") {
+		// the tape cannot be indexed with these keys: Initialize may fail, but a read-only
+		// instance must neither write a root record nor touch the (empty) index, nor panic
+		after, _ := os.ReadFile(ro.W.Drive)
+		if !bytes.Equal(after, tapeBefore) {
+			failf(f, "opening the tape read-only with a key that cannot read it changed the tape (%d -> %d bytes, Initialize err=%v)", len(tapeBefore), len(after), ro.W.InitErr)
+		}
+		if rows, _ := observe.IndexDump(ro.W.DB); len(rows) != 0 && ro.W.InitErr != nil {
+			failf(f, "a failed read-only Initialize left %d rows in the index", len(rows))
+		}
+		if ro.W.InitErr == nil {
+			failf(f, "Initialize with a key that cannot read the tape reported success")
+		}
+		live.S.Class("variant:wrong-key-open")
+		live.S.Case(cfg.String(), true, live.J.Digest(), func() interface{} {
+			return map[string]interface{}{"cfg": cfg.String(), "params": p}
+		})
+		live.S.Flush()
+		return
+	}
 	if ro.W.InitErr != nil {
 		failf(f, "read-only instance does not initialise over an existing tape: %v", ro.W.InitErr)
 	}
@@ -153,6 +174,9 @@ func c15Run(f failer, cfg world.Cfg, p c15Params, next func(i int, mr *hist.MRun
 			}
 		case "close":
 			romr.Slots[s.Slot] = nil
+			romr.Streaming[s.Slot] = false
+		case "read", "readat", "seek":
+			romr.Streaming[s.Slot] = true
 		}
 		// read calls return what a writable instance over the same data returns
 		writeOnly := false
@@ -273,6 +297,19 @@ func c15Avoid(s hist.Step, mr *hist.MRunner) string {
 			return "interp:empty-ReadAt-at-negative-offset"
 		}
 	}
+	// finding F-11: a half-consumed read stream keeps the drive, and the next call that
+	// needs it - also a read through another handle - blocks forever. While it is open,
+	// reads are generated with a buffer larger than the file and no seeks are issued.
+	if guard("F-11") {
+		switch s.Op {
+		case "read", "readat", "seek":
+			for t := range mr.Streaming {
+				if t != s.Slot && mr.Streaming[t] {
+					return "F-11" // another handle may hold a half-consumed stream
+				}
+			}
+		}
+	}
 	return ""
 }
 
@@ -280,6 +317,9 @@ func TestC15(t *testing.T) {
 	rapid.Check(t, func(t *rapid.T) {
 		cfg := hist.DrawCfg(t, 60, nil)
 		p := c15Params{NilWrite: rapid.Bool().Draw(t, "nil_write"), MissingIndex: rapid.Bool().Draw(t, "missing_index"), Prefix: rapid.IntRange(0, 10).Draw(t, "prefix")}
+		if p.MissingIndex && (cfg.Encryption != "" || cfg.Signature != "") && rapid.IntRange(0, 2).Draw(t, "wrongkey") == 0 {
+			p.WrongKey = true
+		}
 		gp := hist.NewGen(t, fsWeights, hist.Universe, 4, cfg.RecordSize)
 		gp.Avoid = avoidFor("C15")
 		gr := hist.NewGen(t, c15Weights, hist.Universe, 4, cfg.RecordSize)
